@@ -192,7 +192,7 @@ def _alphabet() -> list[str]:
                 f"dv{n}:below:scalar", f"dv{n}:below:1d", f"dv{n}:above:scalar", f"dv{n}:above:2d",
                 f"dv{n}:nearbelow:1d", f"dv{n}:nearabove:1d",
                 f"dv{n}:mixed:1d", f"dv{n}:mixed:2d", f"dv{n}:mixedL:1d", f"dv{n}:mixedU:1d"]
-    ops += ["xt:left", "xt:right", "xt:both", "xt:noop", "xt:land7a", "xt:land7b", "xt:right3"]
+    ops += ["xt:left", "xt:right", "xt:both", "xt:noop", "xt:land7a", "xt:land7b", "xt:right3", "xt:nominal3"]
     ops += ["sm:swap", "sm:rot"]
     ops += ["ad:on", "ad:off"]
     ops += ["sc:scalar", "sc:array", "sc:nanrow"]
@@ -214,7 +214,7 @@ ALPHABET_A = [o for o in ALPHABET if not o.startswith("ad:")]
 ALPHABET_B = [
     "ev:inside:scalar", "ev:inside:1d", "ev:below:scalar", "ev:below:list", "ev:above:list", "ev:mixed:1d", "ev:boundary:1d",
     "evd:scalar", "evd:1d", "dv1:inside:scalar", "dv1:below:scalar", "dv2:mixedU:1d",
-    "sc:scalar", "sc:array", "sc:nanrow", "ad:on", "ad:off", "xt:left", "xt:right3", "xt:noop", "sm:swap", "wr", "nt:A",
+    "sc:scalar", "sc:array", "sc:nanrow", "ad:on", "ad:off", "xt:left", "xt:right3", "xt:noop", "xt:nominal3", "sm:swap", "wr", "nt:A",
 ]
 assert set(ALPHABET_B) <= set(ALPHABET)
 PAIRS_B = [("NONE", "NONE"), ("NONE", "CONSTANT"), ("FUNCTION", "NONE"), ("ERROR", "NONE"), ("CONSTANT", "FUNCTION"), ("ERROR", "ERROR")]
@@ -338,6 +338,9 @@ def describe(name: str, pre: dict) -> dict:
             "land7a": (a - 0.28, b, 7, 0),
             "land7b": (a - 0.31, b, 7, 0),
             "right3": (a, b + 0.45, 0, 3),
+            # a FIXED nominal range whose ends have no finite decimal expansion: after a write+read round trip (15 digits) the
+            # table ends sit a few ulp inside it, so repeating this operation asks for an extension of rounding size
+            "nominal3": (-1.0 / 3.0, 10.0 / 3.0, 2, 2),
         }[parts[1]]
         return {"t": "xt", "args": args}
     if head == "sm":
